@@ -81,6 +81,9 @@ use std::iter::{self, FusedIterator, Once, Zip};
 use std::num::NonZeroUsize;
 use std::ptr;
 use std::slice;
+#[cfg(cfr_verif)]
+use cfr_verif_seam::thread;
+#[cfg(not(cfr_verif))]
 use std::thread;
 
 /// An enum indicating a player
